@@ -336,10 +336,40 @@ def dict_attribute_sets(repo, rep, rule="R05.5"):
               where=L.where(func, bare[0].lineno) if bare else L.where(func))
 
 
+def _repeat_bracket_local(repo, rep):
+    """only a LOCAL repeat takes its variables back when the element ends:
+    the save / restore fragments of visit_Repeat are emitted under
+    node.local (a 'global' repeat leaves its variables defined)"""
+    func = repo.func(COMP + "visit_Repeat")
+    res = L.emission(repo, func.qualname)
+    lin = L.Lin(res.emission)
+    enters, leaves = L.brackets(lin)
+    ok = bool(enters) and bool(leaves) and all(
+        L.polarity(x["conds"], "node.local") is True
+        for x in enters + leaves)
+    rep.check(ok, "R05.3", func.qualname, "the variables of a repeat are "
+              "taken back at the end of the element only if the repeat is "
+              "local", construct="repeat-bracket-local-only",
+              where=L.where(func))
+    # the two-layer scope: copy() relies on dict(self) seeing the LOCAL
+    # layer only; a keys() / items() / values() / __len__ that covers the
+    # root as well makes every copy swallow the globals -- the methods of
+    # Scope are a reviewed set
+    sc = repo.cls("chameleon.utils.Scope")
+    reviewed = {"__contains__", "__getitem__", "__iter__", "copy", "get",
+                "get_name", "set_global", "vars", "__init__"}
+    extra = sorted(set(sc.methods) - reviewed)
+    rep.check(not extra, "R05.6", sc.qualname, "Scope overrides no further "
+              "dict method (a copy is made from the local layer: what dict() "
+              "sees of a Scope must stay the local layer)",
+              construct="scope-methods-reviewed", detail=str(extra))
+
+
 def _globals_rule(repo, rep):
     _repeat_globals_rule(repo, rep)
     repeat_first_context(repo, rep)
     dict_attribute_sets(repo, rep)
+    _repeat_bracket_local(repo, rep)
     func = repo.func(COMP + "visit_Assignment")
     res = L.emission(repo, COMP + "visit_Assignment")
     lin = L.Lin(res.emission)
